@@ -133,6 +133,42 @@ func c13R6(c *Ctx, rule string) {
 			c.Bad(rule, "heartbeat:interval", c.P.Pos(fn.Pos()), "one randomTimeout arm in the heartbeat select", fmt.Sprintf("%d", n))
 		}
 	}
+	if fn := c.Fn(rule, "(*Raft).heartbeat"); fn != nil {
+		// after failed heartbeats the wait stays below the follower-visible
+		// timeouts: a follower that is reachable again must be contacted before
+		// the lease on it runs out
+		n := 0
+		engine.EachInstr(fn, func(in ssa.Instruction) {
+			sel, ok := in.(*ssa.Select)
+			if !ok {
+				return
+			}
+			for _, st := range sel.States {
+				d := c.P.D(st.Chan)
+				if !strings.HasPrefix(d, "time.After(") {
+					continue
+				}
+				n++
+				okCap := false
+				if strings.HasPrefix(d, "time.After(cappedExponentialBackoff(") {
+					for _, base := range []string{"recv.config().HeartbeatTimeout", "recv.config().LeaderLeaseTimeout"} {
+						if i := strings.LastIndex(d, ", ("+base+" / "); i >= 0 {
+							var k int64
+							fmt.Sscanf(d[i+len(", ("+base+" / "):], "%d", &k)
+							okCap = okCap || k >= 1
+						}
+						if strings.HasSuffix(d, ", "+base+"))") {
+							okCap = true
+						}
+					}
+				}
+				c.Check(rule, "heartbeat:failure-wait-capped-by-timeout", c.P.InstrPos(in), "the wait after failed heartbeats is cappedExponentialBackoff(…, cap) with cap = HeartbeatTimeout/k or LeaderLeaseTimeout/k (k >= 1): it never grows to many leases", okCap, "wait "+d, 1)
+			}
+		})
+		if n != 1 {
+			c.Bad(rule, "heartbeat:failure-wait", c.P.Pos(fn.Pos()), "one time.After arm after a failed heartbeat", fmt.Sprintf("%d", n))
+		}
+	}
 	if fn := c.Fn(rule, "cappedExponentialBackoff"); fn != nil {
 		r := c.Run(&engine.Automaton{Fn: fn, Tracks: []engine.Track{
 			engine.PredCond("over", func(cd engine.Cond) (bool, int) {
